@@ -35,6 +35,14 @@ def runs3_consts():
                       SaveFails=[False])
 
 
+def forced_zero_consts():
+    """a class that is never sampled (rate 0: record on demand) whose recording is forced *after* interceptions have
+    already happened: what is saved holds every interception of the run"""
+    return gen_consts(3, Classes=[K('K0', rate='zero')], Draws=['low', 'high'], Bodies=['plain', 'forces'], Ctl=['force'],
+                      InFaults=['none'], OutFaults=['none'], Ends=['ret'], SaveFails=[False], InCalls=[('ia1', 1), ('ia2', 2)],
+                      OutAliases=['oa1'], OutResults=[('val', 'v1')])
+
+
 def run(rep, tier, seed):
     rep.rule = ('behaviours = root-to-terminal paths of the TLC state graph of Recorder.tla (operation programs x '
                 'capture faults x discards x sampling outcomes x termination modes, then a same-program replay of '
@@ -52,6 +60,7 @@ def run(rep, tier, seed):
                                             OutAliases=['oa2']),
                          cassettes=('memory', 'async'), n_conc=1, sample=1500)
             chk.generate('gen3runs', runs3_consts(), cassettes=('memory', 'file'), n_conc=1, sample=2000, cap=5000)
+            chk.generate('forcedzero', forced_zero_consts(), cassettes=('memory', 'file'), n_conc=1, all_paths=True, cap=20000)
             rep.exhaustive = bool(ex)
         else:
             chk.check('chk', gen_consts(4, Vals=['v1', 'v2']), invariants=INVS, timeout=3000)
@@ -61,6 +70,7 @@ def run(rep, tier, seed):
             chk.generate('gen3', gen_consts(3), cassettes=('memory',), n_conc=1, all_paths=True, cap=400000)
             chk.generate('gen2async', gen_consts(2), cassettes=('async',), n_conc=1, all_paths=True)
             chk.generate('gen3runs', runs3_consts(), cassettes=('memory', 'file'), n_conc=1, all_paths=True, cap=200000)
+            chk.generate('forcedzero', forced_zero_consts(), cassettes=('memory', 'file', 's3'), n_conc=2, all_paths=True, cap=20000)
             rep.exhaustive = bool(ex)
     finally:
         chk.close()
